@@ -473,7 +473,7 @@ TExpect ==
 
 \* events that carry no obligation for the monitors of this module
 Skippable == {"Deal", "CacheAdd", "Flush", "HubSlow", "HubDelete", "Subscribed", "CacheRead", "WatchClosing",
-              "RetryDeal", "Get", "IterOpen", "IterItem", "Die", "Note", "IterFault"}
+              "RetryDeal", "Get", "IterOpen", "IterItem", "Die", "Note", "IterFault", "GetFault"}
 \* a request made the code under test panic (the driver recovered the goroutine): no property allows that
 TPanic ==
     /\ Is("Panic") /\ Adv
